@@ -135,7 +135,8 @@ var Kinds = []string{"readers3", "kmeans", "readers2", "heightmap", "readers3", 
 	"readers3", "kmeans", "readers2", "heightmap", "readers3", "objbuild", "render", "c12:mc",
 	"readers3", "c12:dc", "readers2", "c12:ms", "readers3", "c12:raster", "render", "c12:mcsearch",
 	"coldstart", "kmeans", "readers2", "heightmap", "readers3", "objbuild", "render", "c12:mcflat",
-	"readers3", "c12:dc", "readers2", "c12:ms", "readers3", "c12:raster", "c12:dcbig", "c12:mcsearch"}
+	"readers3", "c12:dc", "readers2", "c12:ms", "readers3", "c12:raster", "c12:dcbig", "c12:mcsearch",
+	"composites", "composites", "composites"}
 
 func RunCase(t *testing.T, c *Case, work, sched *choice.Source, st *Stats) (fs []Finding) {
 	r := &runner{t: t, st: st, sched: sched}
@@ -158,6 +159,8 @@ func RunCase(t *testing.T, c *Case, work, sched *choice.Source, st *Stats) (fs [
 		return runRender(r, work)
 	case c.Kind == "coldstart":
 		return runColdStart(r, work)
+	case c.Kind == "composites":
+		return runComposites(r, work)
 	case strings.HasPrefix(c.Kind, "c12:"):
 		cc := &c12.Case{Algo: c.Kind[4:]}
 		cst := &c12.Stats{}
